@@ -128,10 +128,10 @@ func c09StemV(n, v int) string {
 
 // c09Sources lists the declared sources in simplest-first order.
 func c09Sources(c *mc.Ctx) []c09Src {
-	alpha := []byte{0x00, 0x01, 0x7f, 0x80, 0xff, 'a'}
+	alpha := []byte{0x00, 0x01, 0x7f, 0x80, 0xff, 'a', 0xc3}
 	stems := []int{7, 8, 9}
 	if c.Thorough {
-		alpha = []byte{0x00, 0x01, 0x7f, 0x80, 0xff, 'a', 0xa5, 0x5a}
+		alpha = []byte{0x00, 0x01, 0x7f, 0x80, 0xff, 'a', 0xc3, 0xbf, 0xa5}
 		stems = []int{7, 8, 9, 15, 16, 17}
 	}
 	tails := gen.Strings(alpha, 3)
